@@ -131,10 +131,14 @@ struct DescModel {
     std::map<uint256, std::shared_ptr<const Expansion>> by_id;
     std::map<CScript, std::pair<uint256, int>> by_script;
 
-    uint256 AddString(const std::string& desc_str, bool persistent = false)
+    /** `alias`: the id the wallet uses for this descriptor (ScriptPubKeyMan::GetID()), when the string is the NORMALISED public form whose
+     *  own id differs (descriptors generated by the wallet have hardened steps after the extended key). */
+    uint256 AddString(const std::string& desc_str, bool persistent = false, const uint256* alias = nullptr)
     {
         auto e = ExpandCached(desc_str, range, persistent);
-        if (e->id.IsNull() || by_id.count(e->id)) return e->id;
+        if (e->id.IsNull()) return e->id;
+        if (alias && !by_id.count(*alias)) by_id[*alias] = e;
+        if (by_id.count(e->id)) return e->id;
         by_id[e->id] = e;
         for (size_t i = 0; i < e->scripts.size(); ++i) by_script.emplace(e->scripts[i], std::make_pair(e->id, int(i)));
         return e->id;
@@ -142,17 +146,17 @@ struct DescModel {
     /** Learn the descriptors the wallet holds now (public strings; harness-imported ones were added with their private string before). */
     void Refresh(wallet::CWallet& w)
     {
-        std::vector<std::string> strs;
+        std::vector<std::pair<std::string, uint256>> strs;
         {
             LOCK(w.cs_wallet);
             for (auto* spkm : w.GetAllScriptPubKeyMans()) {
                 auto* d = dynamic_cast<wallet::DescriptorScriptPubKeyMan*>(spkm);
                 if (!d || by_id.count(d->GetID())) continue;
                 std::string s;
-                if (d->GetDescriptorString(s, /*priv=*/false)) strs.push_back(s);
+                if (d->GetDescriptorString(s, /*priv=*/false)) strs.emplace_back(s, d->GetID());
             }
         }
-        for (auto& s : strs) AddString(s);
+        for (auto& [s, id] : strs) AddString(s, false, &id);
     }
     std::optional<std::pair<uint256, int>> Lookup(const CScript& spk) const
     {
